@@ -6,6 +6,14 @@
 
 #include "values.h"
 
+/* fraction code for the crossing next to a point outside of the range */
+static int crossingCode(double val)
+{
+	int code = mpt_linepart_code(val);
+	/* quotient may underflow to zero, zero code marks a visible end point */
+	return code ? code : 1;
+}
+
 /*!
  * \ingroup mptPlot
  * \brief get line part
@@ -43,13 +51,13 @@ extern void mpt_linepart_linear(MPT_STRUCT(linepart) *part, const double *from, 
 	/* partial first */
 	if (*from < min) {
 		if (len >= 2 && !(from[1] < min || from[1] > max)) {
-			part->_cut = mpt_linepart_code((min-from[0])/(from[1]-from[0]));
+			part->_cut = crossingCode((min-from[0])/(from[1]-from[0]));
 			part->raw = part->usr = 2; from += 2; len -= 2;
 		}
 	}
 	else if (*from > max) {
 		if (len >= 2 && !(from[1] < min || from[1] > max)) {
-			part->_cut = mpt_linepart_code((from[0]-max)/(from[0]-from[1]));
+			part->_cut = crossingCode((from[0]-max)/(from[0]-from[1]));
 			part->raw = part->usr = 2; from += 2; len -= 2;
 		}
 	}
@@ -58,14 +66,14 @@ extern void mpt_linepart_linear(MPT_STRUCT(linepart) *part, const double *from, 
 	while (len) {
 		if (*from < min) {
 			if (part->usr) {
-				part->_trim = mpt_linepart_code((min-from[0])/(from[-1]-from[0]));
+				part->_trim = crossingCode((min-from[0])/(from[-1]-from[0]));
 				++part->usr;
 			}
 			break;
 		}
 		if (*from > max) {
 			if (part->usr) {
-				part->_trim = mpt_linepart_code((from[0]-max)/(from[0]-from[-1]));
+				part->_trim = crossingCode((from[0]-max)/(from[0]-from[-1]));
 				++part->usr;
 			}
 			break;
